@@ -16,7 +16,9 @@ CLAIMED = {
              "sequences, Integer-Divide on atoms (floor toward minus infinity) and the string Find generator (first match at or "
              "after the previous one + 1, terminates), over sequences of arbitrary length; predicate truth tables over the class "
              "lattice and the verb dispatch tables. Take's remainder arithmetic rests on seven Lean-checked integer lemmas. Match: "
-             "bounded stand-in only (nested / ragged operands up to a stated size, labelled).",
+             "bounded stand-in only (nested / ragged operands up to a stated size, labelled). A verb oracle (bounded, labelled: about 1500 "
+             "applications of Take, Drop, Rotate, Split, Cut, At/Index, Integer-Divide, Remainder incl. operands beyond 2**53, Reshape with a "
+             "reused shape operand, against oracles written from the reference sentences) runs on every check.",
         note="Partial: arithmetic/comparison/min/max ufunc verbs, grade, group, shape, transpose, amend, reshape, range, "
              "format are NOT under contract (NumPy ufunc semantics would be an assumed contract). Assumed: NumPy tile/concatenate/roll/"
              "array_split/slicing contracts as stated in contracts/c01.py; operands are vectors or outer axes; numpy backend.",
@@ -29,9 +31,13 @@ CLAIMED = {
              "(Lean: scanl_last), Converge/While/Iterate loop contracts; the ufunc shortcut and dispatch tables map each operator to "
              "the reduce/accumulate of THAT operator under the stated guards (exhaustive table check); atom right operand of Each-left / "
              "Each-right gives f(a;b) / f(b;a); a string operand of Each-pair reaches the verb as characters; the compiled shortcuts of "
-             "f/a and f\\a denote the adverb's value (rows of C05's value-equivalence check).",
+             "f/a and f\\a denote the adverb's value (rows of C05's value-equivalence check); Iterate and Scan-Iterating with the count's "
+             "CLASS as a ghost (a computed count is a NumPy integer: the loop test must not depend on it). Expansion oracle (bounded, labelled: "
+             "about 670 cases of every adverb x verb x operand kind incl. strings, nested lists, matrices, zero divisors, computed counts, "
+             "two-adverb chains, against the separately evaluated plain applications of the verb) runs on every check.",
         note="Assumed: functools.reduce / itertools.accumulate as left fold / prefix folds; NumPy ufunc.reduce agrees with the verb "
-             "(assumed identities); string operands of the other adverbs and adverb chains are not under contract. Termination of "
+             "(assumed identities; the shortcut guards themselves - object arrays, zero divisors - are exercised by the bounded oracle only); "
+             "string operands of the other adverbs and adverb chains are covered by the bounded oracle, not by contracts. Termination of "
              "Converge/While is not claimed.",
         ref="DESIGN.md section 4 C02",
         technique=TECH + "; Lean 4 for the fold lemmas; exhaustive enumeration of the operator shortcut table"),
@@ -41,7 +47,10 @@ CLAIMED = {
              "operand - alias-aware (slices are views, asarray/reshape/to_numpy may return their argument, shallow copies share "
              "members), modular (callee summaries: which parameters are written, what the result may alias); the only operand "
              "writes are the documented dictionary updates of Join/Drop under a dictionary test; the evaluator writes nothing into "
-             "the tree it evaluates except the memo field _compiled; _resolve_fn's f_args is caller-allocated at every call site.",
+             "the tree it evaluates except the memo field _compiled; _resolve_fn's f_args is caller-allocated at every call site; the scope "
+             "pushed for a call is popped on the normal and the exceptional exit (C03's contract of _eval_fn re-verified here); compiled "
+             "code is only called on the kinds of value it was admitted for, so the per-node memo does not make a later evaluation depend "
+             "on what the variables held earlier (structural obligation shared with C05).",
         note="Partial: history-independence of the parse/compile caches (a relation between runs) and arity fields written on operator "
              "nodes during parsing are NOT decided. Literal dictionaries: C10's obligations; cache clearing on rebinding: C05/C09's. "
              "Assumed: NumPy/builtin allocation contracts tabulated in pyvc/frames.py; unknown callees do not write their arguments. "
@@ -58,9 +67,11 @@ CLAIMED = {
              "bounded (IR depth <= 3), labelled. Value level (numpy backend): every template denotes the value of the interpreter's verb "
              "for that operator on every admitted operand - the template and the verb's decision list (pre-guards, shortcut with its "
              "guards, generic fold) are read from the real source and compared as terms modulo seven declared NumPy/Python identities; "
-             "scalar variables are admitted by exact type only; the Define verb rebinds through __setitem__ (cache cleared).",
+             "scalar variables are admitted by exact type only; the Define verb rebinds through __setitem__ (cache cleared); every call of "
+             "compiled code is guarded by the same admission test on the actual arguments (structural obligation on the three call sites); "
+             "compile-sequences (bounded, labelled): same-shape expressions with the variables in different orders, in one interpreter.",
         note="Not decided: comparisons on object arrays ((l==r)*1 vs vec_fn2/safe_equal), the torch backend's values (torch is not "
-             "installed), the per-node memo _compiled (not invalidated on rebinding: not an obligation, see DESIGN.md). Assumed: the "
+             "installed), integer overflow (compiled code computes with Python integers, the interpreter with int64). Assumed: the "
              "NumPy identities I1-I7 of contracts/c05_values.py. Three divergences of the pinned tree were found by these obligations "
              "and repaired (known_findings.json).",
         ref="DESIGN.md section 4 C05 and section 8",
@@ -86,7 +97,9 @@ CLAIMED = {
              "holder/deletion with whole-stack frames); a conditional evaluates its test once and exactly one branch chosen by Klong "
              "truth (ghost evaluation log); every scope pushed for a function call binds .f to the function being applied. Projection "
              "flattening: merge_projections == 'fill holes left to right at every step' checked exhaustively on the real function over "
-             "the language's domain incl. array-valued arguments (bounded, labelled).",
+             "the language's domain incl. array-valued arguments (bounded, labelled). An exception raised inside compiled code ends in the "
+             "interpreter path (C05's contract of eval re-verified here): the call form agrees with the substituted body where compiled "
+             "code fails.",
         note="Assumed: verb functions, Python callables and compiled expressions are stack-preserving; the documented .module exception "
              "(ghost flag); module-scope lookup rules not under contract; the positional construction of the call frame in _eval_fn is "
              "not yet under contract; substitution semantics of whole bodies is a whole-evaluator statement and not decided.",
@@ -100,7 +113,8 @@ CLAIMED = {
              "still a function (the original otherwise) and makes exactly one klong.call(KGCall(fn.a, args, fn.arity)); "
              "KGFnWrapper.__init__ stores the name resolved at construction; _resolve_fn resolves a symbol bound to a bare KGLambda to "
              "that callable; the arity given to a function at parse time (get_fn_arity._e, structural recursion, modular) is the "
-             "number of distinct function variables occurring anywhere in its body.",
+             "number of distinct function variables occurring anywhere in its body, and get_fn_arity returns exactly that on every path; a "
+             "Python list passed through the wrapper is converted by the interpreter's own list conversion (not NumPy's homogenising asarray).",
         note="Assumed: inspect.signature and np.asarray as pure functions; the evaluator contract of C03; the call frame maps x,y,z "
              "positionally (built by _eval_fn, not under contract); _handle_import and _find_symbol not under contract; a Python None "
              "argument is an empty projection slot (see the C20 known finding).",
@@ -147,7 +161,9 @@ CLAIMED = {
              "tables: Table.commit against the merge specification over abstract frames - never raises, the new frame has one row per "
              "key (the last inserted of the buffer, else the stored row), is sorted, and holds exactly the stored and buffered keys. "
              ".db: at the call of con.execute every table name is bound to the frame that table's get_dataframe() returned in THIS "
-             "invocation (loop invariant over the table map; a frame remembered from an earlier query does not satisfy it).",
+             "invocation (loop invariant over the table map; a frame remembered from an earlier query does not satisfy it), and a table name "
+             "is never published in the function's own namespace; a table owns its rows (ownership typing: what .table is given and what "
+             "t?col hands out share no memory with the frame); .index passes the key columns in the order given.",
         note="Assumed: pandas contracts as stated in contracts/c19_commit.py (intersection, loc selection / aligned assignment raising "
              "on duplicate labels, isin, duplicated, drop_duplicates(subset), concat, sort_index not stable); DuckDB resolves a table name "
              "to the frame bound in the calling frame and computes the query over it (the SQL result itself is NOT decided); the unindexed "
@@ -159,7 +175,8 @@ CLAIMED = {
              "with that frame - consecutive frames are delivered one by one, in order, from any cursor; request construction "
              "(f(:name,args) -> KGRemoteFnCall, function proxy passes the first `arity` of x,y,z, dictionary get/set commands); the "
              "listener answers under the same message id with exactly the value the server-side evaluation returned (no reshaping of "
-             "the reply); KGUndefined pickles by reference (AST-structural + native identity check).",
+             "the reply); KGUndefined pickles by reference (AST-structural + native identity check); stream_send_msg hands the whole frame to "
+             "the writer in one write() before its first await (a connection has several senders).",
         note="Assumed: StreamReader.readexactly returns the next n bytes however they arrived (this carries 'however the stream is "
              "split'); pickle/struct/uuid codecs inverse on their domains. Not decided: value equivalence of pickled values and the "
              "server-side evaluation.",
@@ -172,7 +189,8 @@ CLAIMED = {
              "precondition satisfied, under arbitrary interference at the awaits (running may flip, calls may register futures); "
              "NetworkClient.call has registered its future under the request id before the request can reach the wire and sends on the "
              "writer the listener owns; a frame that cannot be decoded fails the connection (it is not skipped); on every exit "
-             "path execute_server_command has completed the request's result future exactly once (unless the event loop itself refused).",
+             "path execute_server_command has completed the request's result future exactly once (unless the event loop itself refused); "
+             "frames are written in one piece (C13's structural obligation, also a row here).",
         note="NOT decided: liveness ('never hangs', prompt failure after loss), the is_open-then-register window between threads, close "
              "racing with calls. Assumed: asyncio run-to-completion between awaits, Future contracts, the C13 transport contracts.",
         ref="DESIGN.md section 4 C14"),
@@ -200,7 +218,9 @@ CLAIMED = {
              "KGFnWrapper and skips non-monads and calls; shutdown cancels the task and cleans the runner once; .webc given the handle "
              ".web returned shuts that server down exactly once and returns 1 (0 for anything else); websocket _listen "
              "receives, decodes and dispatches one message to .ws.m exactly once in order; the connection is pushed for the call and "
-             "popped on every exit; result or failure delivered to the waiting future exactly once.",
+             "popped on every exit; result or failure delivered to the waiting future exactly once; a failure of the .ws.m handler does not "
+             "escape _listen (later messages are still handled). ws-send-kinds (bounded, labelled): encode_message on 15 kinds of value "
+             "incl. computed numbers (NumPy scalars) and dictionaries with keys of two kinds.",
         note="Assumed: aiohttp routing and request parsing, websockets, JSON codec, sockets ('after .webc the port no longer answers' "
              "rests on aiohttp). Bounded stand-in: 13 JSON kinds of websocket message through klong['.ws.m'](conn, msg); known "
              "finding: a JSON null message is not handed to the handler body (known_findings.json).",
@@ -213,7 +233,8 @@ CLAIMED = {
              "boundary skipped that was not missed - also when the loop dispatched the tick up to its clock resolution BEFORE the deadline; "
              "the timer goes on exactly when the callback returned a true value and did not stop it; callback invoked exactly once per "
              "tick; argument validation and KGFnWrapper wrapping in .timer. Holds for every callback behaviour admitted by the rely "
-             "condition (cancel self, return anything, raise).",
+             "condition (cancel self, return anything, raise); a tick whose callback raises (or returns a value without a truth value) ends "
+             "the timer: nothing scheduled, delegate cleared, a later .timerc returns 0 (exceptional postcondition).",
         note="Assumed: asyncio loop contract (handles fire at most once, not earlier than the clock resolution before their time, never "
              "after cancel; run-to-completion; resolution < interval), floats as reals, callbacks reach the timer only through cancel(). "
              "Behaviour after a callback raises is not specified by the property and not constrained.",
@@ -228,7 +249,8 @@ CLAIMED = {
              "Table store: PandasDataFrameCache.update against the documented merge over abstract frames (stored rows win on equal index, "
              "new index values added, result unique and sorted) with pandas' concat / duplicated / sort_index (NOT stable) as assumed "
              "contracts; a table handed out by TableStorage.get is a new object whose frame shares nothing with the cache entry "
-             "(ownership typing of Table.__init__ and TableStorage.get).",
+             "(ownership typing of Table.__init__ and TableStorage.get); get_dataframe turns 'names no file' (never set, or a directory of the "
+             "store) into 'no table' and lets nothing but MemoryError escape.",
         note="Assumed: single client (a task runs when its submitter waits for it), ghost file model, pickle round trip, join injective on "
              "normalised keys, library contracts of dict/heapq/Lock/ThreadPoolExecutor/pandas, msum lemmas (Lean); the table merge uses "
              "get_file/update_file as abstract consequences of the FileCache contracts (assumed link). Not decided: LRU order, alias "
